@@ -221,6 +221,30 @@ func runC07(c *eng.Ctx) {
 	c.Rule("R07.7", "K3")
 	c.WhoMayCall("resetFailovers", []string{"server.metadataAPI.resetFailovers"}, []string{"server.(*metadataAPI).Reset", "server.(*metadataAPI).LostLeadership"}, []string{"server.(*metadataAPI).Reset", "server.(*metadataAPI).LostLeadership"})
 	c.WhoMayCall("LostLeadership", []string{"server.metadataAPI.LostLeadership"}, []string{"server.(*Server).leadershipLost"}, []string{"server.(*Server).leadershipLost"})
+	if fn := c.Fn("server.(*metadataAPI).resetFailovers"); fn != nil {
+		ok := len(eng.CallsIn(fn, "server.failoverStatus.cancel")) >= 2
+		c.Check(ok, "reset cancels partition and group failovers", p.Pos(fn.Pos()), "cancel() for every partition and group failover", "resetFailovers no longer cancels both kinds of in-flight failover")
+		for _, f := range []string{"partitionFailovers", "groupFailovers"} {
+			fo := p.Field("server", "metadataAPI", f)
+			cleared := false
+			for _, st := range eng.FieldStores(fn, func(fa *ssa.FieldAddr) bool { return fieldIs(fa, fo) }) {
+				if _, isMake := st.Val.(*ssa.MakeMap); isMake {
+					cleared = true
+				}
+			}
+			if !cleared {
+				// or every entry deleted
+				eng.Instrs(fn, func(in ssa.Instruction) {
+					if call, ok := in.(*ssa.Call); ok {
+						if b, ok := call.Call.Value.(*ssa.Builtin); ok && b.Name() == "delete" && eng.Load(fo, nil)(call.Call.Args[0]) {
+							cleared = true
+						}
+					}
+				})
+			}
+			c.Check(cleared, "reset forgets the witnesses of "+f, p.Pos(fn.Pos()), "the table is re-initialised", "resetFailovers cancels the timers but keeps the "+f+" entries: witnesses reported before a leadership change still count towards a later failover quorum")
+		}
+	}
 	if fn := c.Fn("server.(*metadataAPI).removeStream"); fn != nil {
 		ok := len(eng.CallsIn(fn, "server.failoverStatus.cancel")) > 0
 		c.Check(ok, "stream removal cancels partition failovers", p.Pos(fn.Pos()), "failover.cancel() + delete for every partition of the removed stream", "removeStream no longer cancels in-flight failovers of the stream's partitions")
@@ -230,7 +254,7 @@ func runC07(c *eng.Ctx) {
 		c.CheckFieldLocks(eng.LockRule{Field: p.Field("server", "metadataAPI", f), Lock: lock,
 			Exempt: map[string]string{"server.newMetadataAPI": "constructor"}}, "metadataAPI."+f)
 	}
-	c.Floor(8)
+	c.Floor(11)
 }
 
 // sameRead: two values read the same field of the same base (no CSE in go/ssa), or are the same value.
